@@ -111,6 +111,18 @@ class CursorMachine(finite.Machine):
         return True
 
     def stmt(self, s, st):
+        if isinstance(s, ast.Assign) and len(s.targets) == 1 and isinstance(s.targets[0], ast.Tuple) \
+                and isinstance(s.value, ast.Tuple) and len(s.value.elts) == len(s.targets[0].elts):
+            vals = [self.ev(v, st) for v in s.value.elts]       # right-hand side first, then the stores
+            st = dict(st)
+            for t, v in zip(s.targets[0].elts, vals):
+                if isinstance(t, ast.Attribute) and isinstance(t.value, ast.Name) and t.value.id == 'self':
+                    self.attrs[t.attr] = v
+                elif isinstance(t, ast.Name):
+                    st[t.id] = v
+                else:
+                    raise AnalysisError(f'unsupported assignment target {unparse(t)}')
+            return st
         if isinstance(s, ast.Assign) and len(s.targets) == 1 and isinstance(s.targets[0], ast.Attribute) \
                 and isinstance(s.targets[0].value, ast.Name) and s.targets[0].value.id == 'self':
             self.attrs[s.targets[0].attr] = self.ev(s.value, st)
@@ -403,7 +415,46 @@ def rule_column7(P) -> RuleResult:
     if gi is None or 'slice' not in unparse(gi.node):
         res.fail(f'{col.fq}.__getitem__', 'column7:slice', 'description entries must support slicing', loc(col))
     else:
-        res.ok({'getitem': 'index and slice'})
+        # execute both branches symbolically: an index gives the field, a slice the tuple of the fields in the slice
+        kp = gi.params[1]
+        problems = []
+        for is_slice in (False, True):
+            def callh(e, st, m):
+                f = unparse(e.func)
+                if f == 'tuple':
+                    return ('tuple', m.ev(e.args[0], st))
+                if f == 'self._vars':
+                    return ('called', 'self._vars')
+                if isinstance(e.func, ast.Subscript) or f == 'getter':
+                    return ('field-of', m.ev(e.func, st) if isinstance(e.func, ast.Subscript) else 'each')
+                return finite.Sym(f)
+            mach = finite.Machine(isinstance_=lambda v, c, _s=is_slice: _s if unparse(c) == 'slice' else False,
+                                  call=callh, names={'self': finite.Sym('self'), kp: finite.Sym('KEY')},
+                                  subscript=lambda e, st, m: ('getters', unparse(e.slice)) if unparse(e.value) == 'self._vars' else finite.Sym(unparse(e)),
+                                  expr=lambda e, st, m: finite.Sym(unparse(e)))
+            mach.comprehensions = True
+            try:
+                mach.run(body_without_docstring(gi.node), {})
+                got = None
+            except finite.Return as r:
+                got = r.value
+            except AnalysisError as exc:
+                problems.append(f'for a {"slice" if is_slice else "index"} it {exc}')
+                continue
+            want_inner = ('getters', kp)
+            ok = (got == ('field-of', want_inner)) if not is_slice else \
+                (isinstance(got, finite.Each) and got.value == ('field-of', 'each')
+                 and getattr(mach, 'last_iterated', None) == want_inner)
+            if is_slice and not ok and getattr(mach, 'last_iterated', None) == ('called', 'self._vars'):
+                problems.append('for a slice it calls the tuple of field getters instead of slicing it (TypeError)')
+                continue
+            if not ok:
+                problems.append(f'for a {"slice" if is_slice else "index"} it returns {got!r}')
+        if problems:
+            res.fail(gi.fq, 'column7:getitem', 'Column.__getitem__ must return the field for an index and the tuple of fields for a slice: '
+                     + '; '.join(problems), loc(gi))
+        else:
+            res.ok({'getitem': 'index and slice', 'cases': 2})
     bases = [unparse(b) for b in col.node.bases]
     if 'Sequence' not in bases:
         res.fail(col.fq, 'column7:sequence', 'Column must be a Sequence (iteration, len, indexing)', loc(col))
@@ -416,6 +467,23 @@ def rule_column7(P) -> RuleResult:
 def rule_modconst(P) -> RuleResult:
     res = RuleResult('R-MODCONST')
     m = P.module('beanquery')
+    # every execute() on the connection hands out a cursor of its own
+    conn0 = m.classes.get('Connection')
+    if conn0 is not None and 'cursor' in conn0.methods and 'execute' in conn0.methods:
+        cur_m, ex_m = conn0.methods['cursor'], conn0.methods['execute']
+        rets = [n for n in ast.walk(cur_m.node) if isinstance(n, ast.Return)]
+        fresh = len(rets) == 1 and isinstance(rets[0].value, ast.Call) and unparse(rets[0].value.func) == 'Cursor'
+        stores = [unparse(n.targets[0]) for f in (cur_m, ex_m) for n in ast.walk(f.node)
+                  if isinstance(n, ast.Assign) and unparse(n.targets[0]).startswith('self.')]
+        rets2 = [n for n in ast.walk(ex_m.node) if isinstance(n, ast.Return)]
+        via = len(rets2) == 1 and unparse(rets2[0].value).startswith('self.cursor().execute(')
+        if not fresh or stores or not via:
+            res.fail(f'{conn0.fq}.execute', 'modconst:fresh-cursor',
+                     'Connection.execute() / cursor() must hand out a new Cursor each time: a cursor kept on the connection '
+                     f'is re-executed under the hands of the caller that still holds it (stores on the connection: {stores})',
+                     loc(ex_m))
+        else:
+            res.ok({'Connection.execute': 'self.cursor().execute(...)', 'Connection.cursor': 'Cursor(self)'})
 
     def const(name):
         v = m.assigns.get(name)
